@@ -144,7 +144,7 @@ pub fn format_value(kind: Kind, v: Inst, off: i32, pattern: &str) -> Result<Stri
             catch(|| t.format(pattern))
         }
         Kind::DateTime => {
-            let d = mk_dt_off(v.i(), off);
+            let d = mk_dt_off_any(v.i(), off);
             catch(|| d.format(pattern))
         }
     }
